@@ -222,7 +222,12 @@ func (p *Program) applyRenames() []string {
 	}
 	for g, ms := range missing {
 		if len(ms) == 1 && len(fresh[g]) == 1 {
-			pair(ms[0], fresh[g][0])
+			// one gone, one new: the same function under a new name when it kept its
+			// signature or is still called from where the old one was; otherwise a function
+			// was removed and an unrelated one added
+			if fn := fresh[g][0]; knownSigs[ms[0]] == "" || knownSigs[ms[0]] == sigString(fn) || sharesCaller(p, fn, knownCallers[ms[0]]) {
+				pair(ms[0], fn)
+			}
 			continue
 		}
 		// several at once: pair those whose signature is unique on both sides
@@ -251,6 +256,30 @@ func (p *Program) applyRenames() []string {
 	}
 	sort.Strings(notes)
 	return notes
+}
+
+// sharesCaller: some function that called the old entry (by the reference table) calls fn.
+func sharesCaller(p *Program, fn *ssa.Function, old []string) bool {
+	was := map[string]bool{}
+	for _, k := range old {
+		was[k] = true
+	}
+	for _, caller := range p.OwnFuncs {
+		for _, b := range caller.Blocks {
+			for _, in := range b.Instrs {
+				if cl, ok := in.(ssa.CallInstruction); ok && cl.Common().StaticCallee() == fn {
+					root := caller
+					for root.Parent() != nil {
+						root = root.Parent()
+					}
+					if was[FuncKey(root)] {
+						return true
+					}
+				}
+			}
+		}
+	}
+	return false
 }
 
 func (p *Program) Pos(pos token.Pos) string {
@@ -449,7 +478,10 @@ func (p *Program) structFields() []string {
 			}
 		}
 	}
-	sort.Strings(out)
+	// by type; the fields of one type stay in declaration order
+	sort.SliceStable(out, func(i, j int) bool {
+		return out[i][:strings.Index(out[i], "\t")] < out[j][:strings.Index(out[j], "\t")]
+	})
 	return out
 }
 
@@ -460,6 +492,7 @@ func (p *Program) applyFieldRenames() []string {
 		return nil
 	}
 	known := map[string]map[string]string{} // type → field → fieldtype
+	knownAt := map[string]map[string]int{}  // type → field → position in the struct
 	for _, l := range strings.Split(knownFieldsTxt, "\n") {
 		parts := strings.Split(l, "\t")
 		if len(parts) != 3 {
@@ -467,7 +500,9 @@ func (p *Program) applyFieldRenames() []string {
 		}
 		if known[parts[0]] == nil {
 			known[parts[0]] = map[string]string{}
+			knownAt[parts[0]] = map[string]int{}
 		}
+		knownAt[parts[0]][parts[1]] = len(known[parts[0]])
 		known[parts[0]][parts[1]] = parts[2]
 	}
 	var notes []string
@@ -488,8 +523,10 @@ func (p *Program) applyFieldRenames() []string {
 				continue
 			}
 			cur := map[string]*types.Var{}
+			curAt := map[*types.Var]int{}
 			for i := 0; i < st.NumFields(); i++ {
 				cur[st.Field(i).Name()] = st.Field(i)
+				curAt[st.Field(i)] = i
 			}
 			var gone []string
 			for f := range kf {
@@ -497,17 +534,43 @@ func (p *Program) applyFieldRenames() []string {
 					gone = append(gone, f)
 				}
 			}
+			sort.Strings(gone)
 			var fresh []*types.Var
-			for f, v := range cur {
-				if _, ok := kf[f]; !ok {
-					fresh = append(fresh, v)
+			for i := 0; i < st.NumFields(); i++ {
+				if _, ok := kf[st.Field(i).Name()]; !ok {
+					fresh = append(fresh, st.Field(i))
 				}
 			}
-			if len(gone) == 1 && len(fresh) == 1 {
-				ft := types.TypeString(fresh[0].Type(), func(q *types.Package) string { return relPkgName(q) })
-				if ft == kf[gone[0]] {
-					oldFieldName[fresh[0]] = gone[0]
-					notes = append(notes, key+"."+fresh[0].Name()+" is field "+gone[0]+" renamed")
+			typeOf := func(v *types.Var) string {
+				return types.TypeString(v.Type(), func(q *types.Package) string { return relPkgName(q) })
+			}
+			// a gone field and a new field of the very same type are one field renamed when
+			// they are the only such pair, or when they sit at the same place in the struct
+			for _, g := range gone {
+				var cands, samePlace []*types.Var
+				for _, f := range fresh {
+					if typeOf(f) == kf[g] {
+						cands = append(cands, f)
+						if len(kf) == st.NumFields() && curAt[f] == knownAt[key][g] {
+							samePlace = append(samePlace, f)
+						}
+					}
+				}
+				nGoneOfType := 0
+				for _, g2 := range gone {
+					if kf[g2] == kf[g] {
+						nGoneOfType++
+					}
+				}
+				var pick *types.Var
+				if len(cands) == 1 && nGoneOfType == 1 {
+					pick = cands[0]
+				} else if len(samePlace) == 1 {
+					pick = samePlace[0]
+				}
+				if pick != nil {
+					oldFieldName[pick] = g
+					notes = append(notes, key+"."+pick.Name()+" is field "+g+" renamed")
 				}
 			}
 		}
